@@ -13,10 +13,13 @@ def hooks_commits():
     except Exception:
         return []
 
+# properties whose check has been reviewed and run on the unchanged tree (one id per line)
+READY = set(open(os.path.join(ROOT, "ready.txt")).read().split())
+
 checks = []
 for pid in ALL:
     P = props.PROPS.get(pid)
-    if not P or P.get("disabled"):
+    if not P or P.get("disabled") or pid not in READY:
         continue
     checks.append(dict(
         property_id=pid,
